@@ -164,6 +164,17 @@ def run_ctor(case, rec):
                 # as many, fewer and more time points than space points
                 kw["nt"] = [n, max(1, n - 1 - n % 3), n + 2 + n % 3][n % 3]
             d = _gen_desc(case, gen, dim, n, key, **kw)
+            if method == "uniform" and n >= 2 and (key + n) % 2 == 1:
+                # configured for residual-adaptive refinement: the first n_start points are active, the others are
+                # pre-allocated - all of them are stored points of the declared domain
+                d["rar"] = dict(start_iter=10 ** 6, update_every=3)
+                if gen != "ode":
+                    d["rar"].update(sample_size_omega=4, selected_sample_size_omega=1)
+                if gen != "statio":
+                    d["rar"].update(sample_size_times=4, selected_sample_size_times=1)
+                d["n_start"] = max(1, n // 2)
+                d["nt_start"] = max(1, d.get("nt", n) // 2)
+                rec.count("stores_of_refinement_enabled_generators")
             sigp = "%s/%s%s" % (method, gen, ("/dim%d" % dim) if gen != "ode" else "")
             try:
                 g = guard.call(gens.make_generator, d)
